@@ -392,6 +392,12 @@ func definedUnder(v ssa.Value, origin Site) bool {
 }
 
 // isResultCell: alloc is a named result of its function (a Return yields a load of it).
+// stickyErrorFields: fields that hold the first error of an object which then refuses every further call.
+var stickyErrorFields = map[string]bool{
+	"recordio.Writer.err": true,
+	"recordio.Reader.err": true,
+}
+
 func isResultCell(v ssa.Value) bool {
 	a, ok := rootCell(v).(*ssa.Alloc)
 	if !ok {
@@ -504,8 +510,20 @@ func (ef *errflow) explore(fn *ssa.Function, origin Site, evals []ssa.Value) (Ve
 						} else {
 							return // stored into shared state: escapes, someone else's obligation
 						}
+					case *ssa.FieldAddr:
+						// into a value that is being built here (a typed error, an element): travels with that value
+						if _, fresh := a.X.(*ssa.Alloc); fresh {
+							return
+						}
+						// into the state of a long-lived object: only where that object is reviewed to refuse everything
+						// after its first error (the vendored buffered reader / writer)
+						if t, f, _, ok := fieldAddrName(a); ok && stickyErrorFields[t+"."+f] {
+							return
+						}
+						// any other field: keeping a note of the error discharges nothing — this call still has to report it
+						// (a "pending error" that a later call returns is lost when no later call comes)
 					default:
-						return // field / global store: escapes to state
+						return // global store: escapes to state
 					}
 				} else if car[x.Addr] {
 					car = copySet(car)
